@@ -77,7 +77,9 @@ Inductive op :=
 | ORdModKeys                                   (* mapKeys(ev.modules) in CheckTree *)
 | OSet (s : slot) (v : N) | OGet (s : slot)    (* PtrVar.Set / PtrVar.Get *)
 | OUseLookup (m : N)                           (* ev.modules[key] *)
-| OUseInstall (m : N).                         (* ev.modules[key] = ns, then the module body runs *)
+| OUseInstall (m : N)                          (* ev.modules[key] = ns, then the module body runs *)
+| ORdGlobalC.                                  (* g := ev.global in CheckTree and in Evaler.Global() called by Call:
+                                                  the snapshot at which a Check / Call linearizes *)
 
 (* compile: resolves names against g; declarations get the slots (t, k), (t, k+1), ...
    Returns the new namespace, the fresh slots and the exec micro-operations;
@@ -124,8 +126,8 @@ Fixpoint call_ops (g : ns) (p : list stmt) : list op :=
 Definition job_ops (g0 : ns) (j : job) : list op :=
   match j with
   | JEval p => [OLockW; ORdBuiltin; ORdGlobal; OCompile p]
-  | JCheck p => [OLockR; ORdBuiltin; ORdGlobal; OUnlockR; ORdModKeys; OCheck p]
-  | JCall p => [OLockR; ORdGlobal; OUnlockR] ++ call_ops g0 p
+  | JCheck p => [OLockR; ORdBuiltin; ORdGlobalC; OUnlockR; ORdModKeys; OCheck p]
+  | JCall p => [OLockR; ORdGlobalC; OUnlockR] ++ call_ops g0 p
   end.
 
 Record thread := mkThread {
@@ -144,7 +146,9 @@ Record config := mkConfig {
   c_store : list (slot * N);    (* values of the variables *)
   c_mods : list N;              (* keys of ev.modules *)
   c_trace : list event;         (* newest first *)
-  c_commits : list N }.         (* ghost: threads in the order they replaced ev.global, newest first *)
+  c_commits : list N;           (* ghost: threads in the order they replaced ev.global, newest first *)
+  c_lin : list N }.             (* ghost: linearization order, newest first: an Eval when it replaces
+                                   ev.global, a Check or a Call when it reads its snapshot *)
 
 Definition upd (f : N -> thread) (t : N) (x : thread) : N -> thread :=
   fun u => if u =? t then x else f u.
@@ -166,17 +170,19 @@ Definition mu_locks (c : config) (t : N) : list (lockid * bool) :=
   match mode_of c t with Some b => [(KMu, b)] | None => [] end.
 
 Definition with_thread (c : config) (t : N) (th : thread) : config :=
-  mkConfig (upd (c_thr c) t th) (c_w c) (c_r c) (c_global c) (c_store c) (c_mods c) (c_trace c) (c_commits c).
+  mkConfig (upd (c_thr c) t th) (c_w c) (c_r c) (c_global c) (c_store c) (c_mods c) (c_trace c) (c_commits c) (c_lin c).
 Definition with_mu (c : config) (w : option N) (r : list N) : config :=
-  mkConfig (c_thr c) w r (c_global c) (c_store c) (c_mods c) (c_trace c) (c_commits c).
+  mkConfig (c_thr c) w r (c_global c) (c_store c) (c_mods c) (c_trace c) (c_commits c) (c_lin c).
 Definition with_event (c : config) (e : event) : config :=
-  mkConfig (c_thr c) (c_w c) (c_r c) (c_global c) (c_store c) (c_mods c) (e :: c_trace c) (c_commits c).
+  mkConfig (c_thr c) (c_w c) (c_r c) (c_global c) (c_store c) (c_mods c) (e :: c_trace c) (c_commits c) (c_lin c).
 Definition with_global (c : config) (g : ns) (t : N) : config :=
-  mkConfig (c_thr c) (c_w c) (c_r c) g (c_store c) (c_mods c) (c_trace c) (t :: c_commits c).
+  mkConfig (c_thr c) (c_w c) (c_r c) g (c_store c) (c_mods c) (c_trace c) (t :: c_commits c) (t :: c_lin c).
 Definition with_store (c : config) (st : list (slot * N)) : config :=
-  mkConfig (c_thr c) (c_w c) (c_r c) (c_global c) st (c_mods c) (c_trace c) (c_commits c).
+  mkConfig (c_thr c) (c_w c) (c_r c) (c_global c) st (c_mods c) (c_trace c) (c_commits c) (c_lin c).
+Definition with_lin (c : config) (t : N) : config :=
+  mkConfig (c_thr c) (c_w c) (c_r c) (c_global c) (c_store c) (c_mods c) (c_trace c) (c_commits c) (t :: c_lin c).
 Definition with_mods (c : config) (m : list N) : config :=
-  mkConfig (c_thr c) (c_w c) (c_r c) (c_global c) (c_store c) m (c_trace c) (c_commits c).
+  mkConfig (c_thr c) (c_w c) (c_r c) (c_global c) (c_store c) m (c_trace c) (c_commits c) (c_lin c).
 
 Definition set_ops (th : thread) (o : list op) : thread := mkThread o (t_snap th) (t_err th) (t_outs th).
 
@@ -241,6 +247,9 @@ Definition step_opt (c : config) (t : N) : option config :=
     | OUseInstall m =>
       let c1 := with_event c (ev_of c t LModules true []) in
       Some (with_thread (with_mods c1 (m :: c_mods c)) t th')
+    | ORdGlobalC =>
+      let c1 := with_lin (with_event c (ev_of c t LGlobal false [])) t in
+      Some (with_thread c1 t (mkThread r (c_global c) (t_err th) (t_outs th)))
     end
   end.
 
@@ -257,7 +266,7 @@ Fixpoint threads_of (g0 : ns) (i : N) (js : list job) : N -> thread :=
   end.
 
 Definition init (g0 : ns) (st0 : list (slot * N)) (mods0 : list N) (js : list job) : config :=
-  mkConfig (threads_of g0 0 js) None [] g0 st0 mods0 [] [].
+  mkConfig (threads_of g0 0 js) None [] g0 st0 mods0 [] [] [].
 
 (* ---- races: two accesses of different threads to one location, one of them
    a write, with no common lock held exclusively by at least one of them ---- *)
